@@ -6,8 +6,8 @@ use std::panic::{catch_unwind, AssertUnwindSafe};
 
 use crate::util::*;
 
-const ALPHABET: [u8; 27] = [
-	0x00, 0x01, 0x7f, 0x80, 0x81, 0x82, 0x90, 0x91, 0x92, 0xa0, 0xa1, 0xc0, 0xc1, 0xc3, 0xc4, 0xc7, 0xcc, 0xcd,
+const ALPHABET: [u8; 30] = [
+	0x0a, 0x0d, 0x20, 0x00, 0x01, 0x7f, 0x80, 0x81, 0x82, 0x90, 0x91, 0x92, 0xa0, 0xa1, 0xc0, 0xc1, 0xc3, 0xc4, 0xc7, 0xcc, 0xcd,
 	0xd0, 0xd4, 0xd9, 0xdc, 0xdd, 0xde, 0xdf, 0xe0, 0xff,
 ];
 
